@@ -29,9 +29,10 @@ func init() {
 				L = 3
 			}
 			cs = append(cs, mkCase(tags, "c17", "HVolumes", cfg, L))
+			cs = append(cs, mkCase(tags, "c17", "HVolumeIso", cfg))
 			return []group{{Tags: tags, Pkgs: []string{"c17"}, Cases: cs}}
 		},
-		Reach:       []string{"config", "lockstep", "volumes"},
+		Reach:       []string{"config", "lockstep", "volumes", "volume-iso"},
 		Explanation: "Bounded symbolic execution with build tag avfs_setostype (OS-type selection enabled) on this Linux host: (a) MemFS/OrefaFS constructed with OSType Windows and Linux report the type, separator, FeatSetOSType and the OS's error values; (b) lock-step: the same call template (12 templates, operands over a 9-path portable universe built with Join under the instance's own root/volume, symbolic flags/sizes/bytes) on a Windows-typed and a Linux-typed instance must agree on success/failure and leave isomorphic trees (names, types, contents, link counts); (c) all VolumeAdd/VolumeDelete/VolumeList sequences of length L over six volume names against a set model.",
 		Bounds: func(tier string) map[string]any {
 			return map[string]any{"history_length": 1, "seed_trees": map[string]string{"quick": "1", "thorough": "0,1,2"}[tier], "volume_sequence_length": map[string]int{"quick": 2, "thorough": 3}[tier], "outside": "longer histories; Chown/Lchown/permission bits (documented as OS-specific); symbolic links (not portable); the untagged build"}
